@@ -42,25 +42,34 @@ var encCfgAuth = sifapp.MakeTestEncodingConfig()
 func init() {
 	// two worlds per run, as in family auth: (0) every role store populated, (1) oracle admin EMPTY and a clp whitelist
 	// listing only a stranger
+	// (2) the sparse main-net world (see family auth)
 	families["authtx"] = func(rng *Rng, n int, out *Out, replay string) {
-		authtxWorld(rng, n*3/5, out, replay, 0)
+		authtxWorld(rng, n*2/5, out, replay, 0)
 		out.Emit("reset", "ok", "reset", false)
-		authtxWorld(rng, n, out, replay, 1)
+		authtxWorld(rng, n*7/10, out, replay, 1)
+		out.Emit("reset", "ok", "reset", false)
+		authtxWorld(rng, n, out, replay, 2)
 	}
 }
 
 func authtxWorld(rng *Rng, n int, out *Out, replay string, variant int) {
 	{
 		sifapp.SetConfig(false)
-		const NACC = 14
+		const NSIGN = 14 // accounts whose keys the harness holds
 		r := rand.New(rand.NewSource(int64(rng.U64())))
 		var privs []cryptotypes.PrivKey
 		var addrs []sdk.AccAddress
-		for i := 0; i < NACC; i++ {
+		for i := 0; i < NSIGN; i++ {
 			p := secp256k1.GenPrivKeyFromSecret([]byte(fmt.Sprintf("verif-c08-%d", i)))
 			privs = append(privs, p)
 			addrs = append(addrs, sdk.AccAddress(p.PubKey().Address()))
 		}
+		// … plus the addresses compiled into the repository: nobody has their keys, their messages are SIMULATED with a
+		// forged signature (app.Simulate does not verify signatures)
+		addrs = append(addrs, builtinAdmins()...)
+		NACC := len(addrs)
+		chainID := worldChainID(rng, variant)
+		out.Extra[fmt.Sprintf("world%d_chain_id", variant)] = chainID
 		app := sifapp.SetupFromGenesis(false, func(app *sifapp.SifchainApp, gs sifapp.GenesisState) sifapp.GenesisState {
 			cdc := app.AppCodec()
 			var auth authtypes.GenesisState
@@ -84,7 +93,7 @@ func authtxWorld(rng *Rng, n int, out *Out, replay string, variant int) {
 		app.Commit()
 		height := int64(1)
 		now := time.Unix(1700000000, 0).UTC()
-		header := func() tmproto.Header { return tmproto.Header{Height: height, Time: now} }
+		header := func() tmproto.Header { return tmproto.Header{Height: height, Time: now, ChainID: chainID} }
 		dctx := func() sdk.Context { return app.BaseApp.NewContext(false, header()) }
 		begin := func() {
 			height++
@@ -135,7 +144,7 @@ func authtxWorld(rng *Rng, n int, out *Out, replay string, variant int) {
 		}
 		deliver := func(signer int, msgs []sdk.Msg) abci.ResponseDeliverTx {
 			acc := app.AccountKeeper.GetAccount(dctx(), addrs[signer])
-			tx, err := helpers.GenSignedMockTx(r, encCfgAuth.TxConfig, msgs, sdk.Coins{}, 1500000, "", []uint64{acc.GetAccountNumber()}, []uint64{acc.GetSequence()}, privs[signer])
+			tx, err := helpers.GenSignedMockTx(r, encCfgAuth.TxConfig, msgs, sdk.Coins{}, 1500000, chainID, []uint64{acc.GetAccountNumber()}, []uint64{acc.GetSequence()}, privs[signer])
 			if err != nil {
 				panic(err)
 			}
@@ -167,7 +176,37 @@ func authtxWorld(rng *Rng, n int, out *Out, replay string, variant int) {
 		}
 
 		k := 0
+		// a message of an account whose key nobody has (the compiled-in addresses): SIMULATED with a signature forged by a
+		// stranger (app.Simulate does not verify signatures; it runs the ante chain and the handler on a branch of the last
+		// committed state).  A simulation that succeeds for a signer who holds nothing is a failing input all the same.
+		simOne := func(hc handlerCase, signer int, k int) {
+			qctx := app.BaseApp.NewContext(true, header())
+			msg := hc.build(qctx, addrs[signer].String(), k)
+			acc := app.AccountKeeper.GetAccount(qctx, addrs[signer])
+			tx, err := helpers.GenSignedMockTx(r, encCfgAuth.TxConfig, []sdk.Msg{msg}, sdk.Coins{}, 1500000, chainID, []uint64{acc.GetAccountNumber()}, []uint64{acc.GetSequence()}, privs[11+k%3])
+			if err != nil {
+				panic(err)
+			}
+			bz, err := encCfgAuth.TxConfig.TxEncoder()(tx)
+			if err != nil {
+				panic(err)
+			}
+			stored := storedAuth(app, qctx, addrs[signer])
+			res := "ok"
+			if _, _, err := app.Simulate(bz); err != nil {
+				res = "err"
+			}
+			out.Emit(fmt.Sprintf("chk c08.guard.%s.%s tag=authtx.simulated.%s.%s %s %s %s %s 0", hc.module, hc.name, hc.module, hc.name, hc.module, hc.name, addrs[signer].String(), res), "true", "chk.simulated", false)
+			out.Emit(fmt.Sprintf("chk c08.stored.%s.%s tag=authtx.stored.simulated.%s.%s %s %s %s %s", hc.module, hc.name, hc.module, hc.name, hc.module, hc.name, res, stored), "true", "chk.stored", false)
+			if !hc.lenient && hc.name != "DecommissionPool" {
+				out.Emit("sim 1 "+txItem{hc, k}.descr(addrs[signer].String()), res, fmt.Sprintf("simulated.%s.%s.%s", hc.module, hc.name, res), true)
+			}
+		}
 		one := func(hc handlerCase, shape string, signer int, k int) {
+			if signer >= NSIGN {
+				simOne(hc, signer, k)
+				return
+			}
 			begin()
 			if hc.name == "DecommissionPool" {
 				ctx := dctx()
@@ -266,7 +305,7 @@ func authtxWorld(rng *Rng, n int, out *Out, replay string, variant int) {
 			}
 			acc := app.AccountKeeper.GetAccount(qctx, addrs[signer])
 			forger := noRole[len(items)%3]
-			tx, err := helpers.GenSignedMockTx(r, encCfgAuth.TxConfig, msgs, sdk.Coins{}, 1500000, "", []uint64{acc.GetAccountNumber()}, []uint64{acc.GetSequence()}, privs[forger])
+			tx, err := helpers.GenSignedMockTx(r, encCfgAuth.TxConfig, msgs, sdk.Coins{}, 1500000, chainID, []uint64{acc.GetAccountNumber()}, []uint64{acc.GetSequence()}, privs[forger])
 			if err != nil {
 				panic(err)
 			}
@@ -315,6 +354,30 @@ func authtxWorld(rng *Rng, n int, out *Out, replay string, variant int) {
 			k++
 			one(hc, "spoofwrapped", noRole[k%3], k)
 			k++
+		}
+		if variant == 2 {
+			// sparse main-net world: the compiled-in addresses try every privileged message; then the last stored holder of
+			// ETHBRIDGE (account 14, a compiled-in address, if any) is removed and tries again
+			for _, hc := range cases {
+				if hc.name == "AddAccount" || hc.name == "RemoveAccount" {
+					continue
+				}
+				for a := NSIGN; a < NACC; a++ {
+					one(hc, "direct", a, k)
+					k++
+				}
+			}
+			if NACC > NSIGN {
+				var setPause handlerCase
+				for _, hc := range cases {
+					if hc.name == "SetPause" {
+						setPause = hc
+					}
+				}
+				one(setPause, "direct", NSIGN, 1)
+				one(cases[1], "direct", 10, 3+6*NSIGN)
+				one(setPause, "direct", NSIGN, 2)
+			}
 		}
 		if variant == 1 {
 			// with the single-value admin unset: every account tries every privileged message — in particular each role
@@ -366,12 +429,12 @@ func authtxWorld(rng *Rng, n int, out *Out, replay string, variant int) {
 			if rng.Chance(1, 4) {
 				// a dropped state branch holding a grant (or removal) and a role lookup, then the account's own message
 				items, kind, acct, follow := branchScenario(rng, cases, NACC)
-				multi(kind, []int{4, 10, 10, rng.Intn(NACC)}[rng.Intn(4)], items)
+				multi(kind, []int{4, 10, 10, rng.Intn(NSIGN)}[rng.Intn(4)], items)
 				one(follow, []string{"direct", "wrapped"}[rng.Intn(2)], acct, k)
 				continue
 			}
 			hc := cases[rng.Intn(2)]
-			s := []int{4, 10, 4, 10, 10, rng.Intn(NACC)}[rng.Intn(6)]
+			s := []int{4, 10, 4, 10, 10, rng.Intn(NSIGN)}[rng.Intn(6)]
 			kk := rng.Intn(len(authRoles) * NACC * 8)
 			one(hc, []string{"direct", "wrapped"}[rng.Intn(2)], s, kk)
 			target := (kk / len(authRoles)) % NACC
